@@ -640,9 +640,11 @@ func runC02Round5(c *Ctx) {
 			}
 			// a queue that is stopped releases every waiter itself (R15): nothing to pass on
 			stoppedSide := false
-			for _, cond := range controllingCondsDeep(r.Block()) {
-				for v := range backSlice(cond) {
-					if fa, ok := v.(*ssa.FieldAddr); ok && derefStruct(fa.X.Type()).Field(fa.Field).Name() == "stopped" {
+			for _, g := range guardsOf(r.Block()) {
+				// (dominating guards only: the loop test `for !stopped && full` controls every block behind the loop as well)
+				gv, pol := boolOf(g)
+				if u, ok := gv.(*ssa.UnOp); ok && u.Op == token.MUL && pol {
+					if fa, ok := u.X.(*ssa.FieldAddr); ok && derefStruct(fa.X.Type()).Field(fa.Field).Name() == "stopped" {
 						stoppedSide = true
 					}
 				}
